@@ -1,0 +1,29 @@
+//go:build verif
+
+// Contracts for contract-based deductive verification (see /verif/DESIGN.md).
+// Comment-only file: it contributes no code to any build.
+
+package json
+
+// ---------------------------------------------------------------- C12: decoders never crash
+// Both codec entry points install, before anything else runs, a deferred closure that turns
+// any panic raised below (converter nil dereferences, uuid.Must, third-party unmarshalling)
+// into a non-nil error result.
+
+//@ func (*encoder).EncodeTo
+//@   props C12
+//@   recoverguard
+//@ func (*encoder).EncodeTo$1
+//@   props C12
+//@   recovers
+//@   nopanic
+//@   ensures *er != nil
+
+//@ func (*encoder).DecodeFrom
+//@   props C12
+//@   recoverguard
+//@ func (*encoder).DecodeFrom$1
+//@   props C12
+//@   recovers
+//@   nopanic
+//@   ensures *er != nil
